@@ -36,8 +36,9 @@ def slice_option_advanced_pairing(case, why):
     none_in_index = any(it["k"] == "missing" and 99999 in it["is"] for it in its)
     if not (_has_option(case.get("from")) or none_in_index):
         return False
+    # (the misaligned pair can also be IN range where the aligned one is not: a value where the specification must raise)
     return why.startswith("value differs") or "index out of range" in why or why.startswith("tojson raised") \
-        or why.startswith("result fails validity")
+        or why.startswith("result fails validity") or why.startswith("spec: must raise")
 
 
 def slice_jagged_none_on_option(case, why):
